@@ -88,6 +88,9 @@ var _ = reserr.ErrTimeout
 //@ func (*Client).listener
 //@   requires c != nil
 //@   assumes predReqsOK(c) && c.tq != nil
+// (only a message with a payload can be a pre-response: an empty one - the no-responders status
+// has none - is a reply)
+//@   assert[C18] c.parseMeta#1: len(msg.Data) > 0 && rc.isReq
 //@   assert[C18] rc.f#1: arg2 == mq.ErrNoResponders && rc.isReq && !has(c.mqReqs, msg.Sub)
 //@   assert[C18] rc.f#2: arg2 == nil && (rc.isReq ==> !has(c.mqReqs, msg.Sub))
 //@   loop 1 assume predReqsOK(c) && c.tq != nil && msg != nil
